@@ -136,6 +136,38 @@ func kindName(k rlp.Kind) string {
 	return "?"
 }
 
+// destStates decodes `in` into non-zero destinations; each entry {n, ok, panic, same, val}: same =
+// the value equals the one the fresh decode gave (then val is omitted).
+func destStates(name string, in []byte, freshOK bool, fresh form) []interface{} {
+	out := make([]interface{}, 0, 2)
+	freshJSON, _ := json.Marshal(fresh)
+	one := func(n string, dst reflect.Value, times int) {
+		var err error
+		p, _ := codecutil.Try(func() {
+			for i := 0; i < times; i++ {
+				err = rlp.DecodeBytes(in, dst.Interface())
+			}
+		})
+		e := map[string]interface{}{"n": n, "ok": !p && err == nil, "panic": p, "same": false, "val": errForm()}
+		if !p && err == nil {
+			f := formOf(dst.Elem())
+			j, _ := json.Marshal(f)
+			if freshOK && string(j) == string(freshJSON) {
+				e["same"] = true
+			} else {
+				e["val"] = f
+			}
+		}
+		out = append(out, e)
+	}
+	t := catalogue[name]
+	full := reflect.New(t)
+	full.Elem().Set(fullValue(t, 0))
+	one("full", full, 1)
+	one("twice", full, 1) // the destination that was just used, once more
+	return out
+}
+
 var meter codecutil.AllocMeter
 
 // the Stream paths: a descent with the primitives, and Stream.Decode into
@@ -185,6 +217,9 @@ func decodeEvent(in []byte, src string) map[string]interface{} {
 		} else if a.err == nil {
 			r["ok"] = true
 			r["val"] = formOf(a.ptr.Elem())
+			// destination state: the same bytes into a destination that is not zero - (full) one that
+			// holds a larger value of the type / defaults, (twice) the same destination a second time
+			r["dest"] = destStates(name, in, true, r["val"].(form))
 			var enc []byte
 			var err error
 			p, msg := codecutil.Try(func() { enc, err = rlp.EncodeToBytes(a.ptr.Interface()) })
@@ -195,6 +230,9 @@ func decodeEvent(in []byte, src string) map[string]interface{} {
 				r["reok"] = true
 				r["reenc"] = codecutil.Ints(enc)
 			}
+		}
+		if _, ok := r["dest"]; !ok {
+			r["dest"] = destStates(name, in, false, nil)
 		}
 		res = append(res, r)
 	}
